@@ -383,8 +383,9 @@ fn main()
 	let mut emit = |b: &[u8], out: &mut Out| { if sh.mine() { let c = format!("B {}", hex_bytes(b)); let r = run_case(&c, &dir); out.line(&c, &r); } };
 	// fixed corpus; the witness of the known finding F24 (addsub_imm3_alias) first
 	// (…, then instructions that are NOT terminal followed by code reachable only by fall-through: POP without PC,
-	// PUSH, a conditional branch, BLX, SVC, WFI; seeded change C20-3 needs the first one)
-	let corpus: [&str; 22] = ["241c7047", "01bc00bf7047", "f0bc01b47047", "00d100bf7047", "884700bf7047", "05df00bf7047", "30bf00bf7047", "7047", "00bf7047", "fee7", "fff7feff7047", "00bd", "00be", "00de", "f0f700a0",
+	// PUSH, a conditional branch, BLX, SVC, WFI; seeded change C20-3 needs the first one; before them two binaries whose function is placed BEFORE its only
+	// caller and is reachable only through a backward BL / B<cond>)
+	let corpus: [&str; 24] = ["241c7047", "01e000bf7047fff7fcff7047", "01e000bf7047fcd07047", "01bc00bf7047", "f0bc01b47047", "00d100bf7047", "884700bf7047", "05df00bf7047", "30bf00bf7047", "7047", "00bf7047", "fee7", "fff7feff7047", "00bd", "00be", "00de", "f0f700a0",
 		"00d000bf7047", "00f001f8704700bf7047", "8746", "8744", "bff34f8f80f30088eff305807047", "00bf", "fdd17047"];
 	for c in corpus { emit(&parse_hex_bytes(c), &mut out); }
 	// the two witnesses of the repaired listing defects (F19 header, F6 MOVS / SEV)
